@@ -85,6 +85,13 @@ func NewFileWriterWithName(filePath string, maxBlockSize int, swampName string) 
 // If swampName is set, creates a V3 file with the name stored after the header.
 // Otherwise creates a V3 file with NameLength=0.
 func (fw *FileWriter) createNewFile() error {
+	// The header stores the name length in 16 bits: a longer name would be written with a
+	// wrapped length, the data would then start at the wrong offset and the file (and the fast
+	// name lookup of the explorer) would be unreadable.
+	if len(fw.swampName) > MaxSwampNameSize {
+		return ErrNameTooLarge
+	}
+
 	file, err := os.Create(fw.filePath)
 	if err != nil {
 		return err
